@@ -1010,6 +1010,101 @@ static void stage_giant(void) {
   }
 }
 
+/* ---- stage "manynodes" (C11): trees of more than 2^24 (thorough: 2^25) nodes, copied. A per-call budget, a 24-bit
+ * counter or a recursion that runs out only far beyond the sizes of the other stages shows here. Counting pass-through
+ * allocator (libc malloc underneath): nothing is ever refused, so a NULL copy has no excuse. descriptor: 'N', kind */
+static uint64_t mn_mallocs, mn_frees;
+static void* mn_malloc(size_t n) { mn_mallocs++; return malloc(n); }
+static void* mn_realloc(void* p, size_t n) { if (!p) mn_mallocs++; return realloc(p, n); }
+static void mn_free(void* p) { if (p) mn_frees++; free(p); }
+static void manynodes_case(int kind) {
+  uint8_t desc[2] = {'N', (uint8_t)kind};
+  if (!vh_case(desc, 2)) return;
+  long av = sysconf(_SC_AVPHYS_PAGES), ps = sysconf(_SC_PAGESIZE);
+  if (av < 0 || ps < 0 || (unsigned long long)av * (unsigned long long)ps < (10ull << 30)) { VH_COUNT("manynodes.skipped_less_than_10GiB_available", 1); return; }
+  static const char* const kn[] = {"flat definite array of 2^24 + 5 integers", "4097 arrays of 4097 integers", "indefinite map of 2^23 + 3 pairs", "chunked byte string of 2^24 + 1 one-byte chunks", "flat indefinite array of 2^25 + 3 integers", "tag chain around a definite array of 2^24 + 5 integers"};
+  cbor_set_allocs(mn_malloc, mn_realloc, mn_free);
+  mn_mallocs = mn_frees = 0;
+  cbor_item_t* it = NULL;
+  bool ok = true;
+  uint64_t nodes = 0;
+  switch (kind) {
+    case 0: case 4: case 5: {
+      size_t N = kind == 4 ? ((size_t)1 << 25) + 3 : ((size_t)1 << 24) + 5;
+      it = kind == 4 ? cbor_new_indefinite_array() : cbor_new_definite_array(N);
+      for (size_t i = 0; i < N && ok && it; i++) ok = cbor_array_push(it, cbor_move((i & 1023) == 7 ? cbor_build_uint16((uint16_t)(i >> 8)) : cbor_build_uint8((uint8_t)i)));
+      nodes = N + 1;
+      if (kind == 5 && it && ok) for (int k = 0; k < 3; k++) { cbor_item_t* tg = cbor_build_tag(100 + (uint64_t)k, cbor_move(it)); if (!tg) { ok = false; break; } it = tg; nodes++; }
+      break; }
+    case 1:
+      it = cbor_new_definite_array(4097);
+      for (size_t i = 0; i < 4097 && ok && it; i++) {
+        cbor_item_t* row = i & 1 ? cbor_new_indefinite_array() : cbor_new_definite_array(4097);
+        for (size_t j = 0; j < 4097 && ok && row; j++) ok = cbor_array_push(row, cbor_move(cbor_build_uint8((uint8_t)(i + j))));
+        ok = ok && row && cbor_array_push(it, cbor_move(row));
+      }
+      nodes = 1 + 4097ull * 4098;
+      break;
+    case 2: {
+      size_t N = ((size_t)1 << 23) + 3;
+      it = cbor_new_indefinite_map();
+      for (size_t i = 0; i < N && ok && it; i++) ok = cbor_map_add(it, (struct cbor_pair){.key = cbor_move(cbor_build_uint32((uint32_t)i)), .value = cbor_move(cbor_build_bool(i & 1))});
+      nodes = 2 * N + 1;
+      break; }
+    default: {
+      size_t N = ((size_t)1 << 24) + 1;
+      it = cbor_new_indefinite_bytestring();
+      for (size_t i = 0; i < N && ok && it; i++) { unsigned char c = (unsigned char)i; ok = cbor_bytestring_add_chunk(it, cbor_move(cbor_build_bytestring(&c, 1))); }
+      nodes = N + 1;
+    }
+  }
+  if (!it || !ok) vh_die("manynodes: building the %s failed", kn[kind]);
+  uint64_t m0 = mn_mallocs;
+  cbor_item_t* cp = cbor_copy(it);
+  if (!cp) vh_violation("copy-null-without-refusal", "cbor_copy of a %s (%llu nodes) returned NULL although the allocator refused nothing (%llu requests granted during the call)", kn[kind], (unsigned long long)nodes, (unsigned long long)(mn_mallocs - m0));
+  else {
+    if (cp == it) vh_violation("copy-shares-storage", "cbor_copy returned its argument");
+    unsigned char *ea = NULL, *eb = NULL; size_t ca = 0, cb = 0;
+    size_t na = cbor_serialize_alloc(it, &ea, &ca), nb = cbor_serialize_alloc(cp, &eb, &cb);
+    if (!na || !ea) vh_die("manynodes: serializing the source failed");
+    if (na != nb || !eb || memcmp(ea, eb, na)) vh_violation("copy-differs", "the copy of a %s serializes to %zu bytes, the source to %zu%s", kn[kind], nb, na, na == nb ? " (same length, different bytes)" : "");
+    if (ea) mn_free(ea);
+    if (eb) mn_free(eb);
+    /* node count, reference counts, no storage shared (first and last members, and every 4099th) */
+    size_t ns = walk_count_nodes(it), nc = walk_count_nodes(cp);
+    if (ns != nodes) vh_die("manynodes: the source has %zu nodes, expected %llu", ns, (unsigned long long)nodes);
+    if (nc != ns) vh_violation("copy-differs", "the copy of a %s has %zu nodes, the source %zu", kn[kind], nc, ns);
+    if (cbor_refcount(cp) != 1) vh_violation("copy-refcount", "the copy's root has reference count %zu", cbor_refcount(cp));
+    const cbor_item_t *a = it, *b = cp;
+    while (cbor_isa_tag(a) && cbor_isa_tag(b)) { cbor_item_t* ta = cbor_tag_item(a); cbor_item_t* tb = cbor_tag_item(b); if (ta == tb) vh_violation("copy-shares-storage", "tagged item shared between source and copy"); a = ta; b = tb; cbor_decref(&ta); cbor_decref(&tb); }
+    if (cbor_isa_array(a) && cbor_isa_array(b) && cbor_array_size(a) == cbor_array_size(b)) {
+      cbor_item_t** ha = cbor_array_handle(a); cbor_item_t** hb = cbor_array_handle(b);
+      if (ha == hb) vh_violation("copy-shares-storage", "member table shared");
+      for (size_t i = 0; i < cbor_array_size(a); i += (i + 4099 < cbor_array_size(a) ? 4099 : 1)) {
+        if (ha[i] == hb[i]) { vh_violation("copy-shares-storage", "member %zu is the same item in source and copy", i); break; }
+        if (cbor_refcount(hb[i]) != 1) { vh_violation("copy-refcount", "member %zu of the copy has reference count %zu", i, cbor_refcount(hb[i])); break; }
+      }
+    }
+    uint64_t f0 = mn_frees;
+    cbor_decref(&cp);
+    if (cp) vh_violation("copy-not-released", "copy root still alive after the only reference was dropped");
+    if (mn_frees - f0 < nodes) vh_violation("leak", "releasing the copy of %llu nodes freed only %llu blocks", (unsigned long long)nodes, (unsigned long long)(mn_frees - f0));
+  }
+  cbor_decref(&it);
+  if (mn_mallocs != mn_frees) vh_violation("leak", "%llu blocks obtained, %llu released over build, copy, serialize and release of a %s", (unsigned long long)mn_mallocs, (unsigned long long)mn_frees, kn[kind]);
+  ta_install();
+  VH_COUNT("manynodes.trees_copied", 1);
+  vh_count_dyn("manynodes.nodes_copied", nodes);
+  vh_nontrivial(vh_hash(desc, 2));
+}
+static void stage_manynodes(void) {
+  for (int kind = 0; kind < 6; kind++) {
+    if (kind % O.nshards != O.shard) continue;
+    if (!O.thorough && kind >= 3) continue;
+    manynodes_case(kind);
+  }
+}
+
 static void setup(void) {
   P = atoi(O.prop + 1);
   if (P == 20 && !strcmp(O.stage, "giant")) P = 7; /* the giant items are C20's business as much as C07's */
@@ -1027,6 +1122,7 @@ static void ser_run(void) {
   else if (!strcmp(O.stage, "bigleaf")) stage_bigleaf();
   else if (!strcmp(O.stage, "enc") && P == 7) c07_encoders();
   else if (!strcmp(O.stage, "giant") && P == 7) stage_giant();
+  else if (!strcmp(O.stage, "manynodes") && P == 11) stage_manynodes();
   else vh_die("driver ser: unknown stage '%s'", O.stage);
   if (P == 3) vh_set_rule("each case is an item tree (returned by cbor_load for an enumerated/generated input, or assembled by construction calls alongside a shadow tree); its serialization is compared byte for byte with the reference encoder's output for the shadow tree, reloaded, compared, and serialized again; non-trivial = a tree was obtained; distinct by 64-bit hash of the input / generator index");
   else if (P == 7) vh_set_rule("each tree case runs cbor_serialize for every buffer size 0..size+2 in exactly-sized heap blocks (ASan red zones) plus sentinel-image buffers, and cbor_serialize_alloc; each encoder case is an (encoder, value, n) triple with n = 0..12 and 18 larger sizes up to 65536, the buffer pre-filled with a sentinel and the whole tail beyond the returned length compared afterwards; non-trivial = a tree was obtained / the encoder was called; distinct by hash");
@@ -1038,6 +1134,7 @@ static void ser_exec(const uint8_t* d, size_t n) {
   if (n >= 1 && d[0] == 'D') { dec_case(d + 1, n - 1); return; }
   if (n == 17 && d[0] == 'A') { uint64_t u = 0, s = 0; for (int i = 0; i < 8; i++) { u = u << 8 | d[1 + i]; s = s << 8 | d[9 + i]; } api_case(u, s); return; }
   if (n == 2 && d[0] == 'G') { giant_case(d[1]); return; }
+  if (n == 2 && d[0] == 'N' && P == 11) { manynodes_case(d[1]); return; }
   if (n == 11 && d[0] == 'E') { uint64_t v = 0; for (int i = 0; i < 8; i++) v = v << 8 | d[2 + i]; c07_enc_case(d[1], v, d[10]); return; }
   printf("unrecognised descriptor\n");
 }
